@@ -19,15 +19,15 @@ func init() {
 	fw.Register(&fw.Check{
 		ID:    "C16",
 		Level: "exploration",
-		Rule: "case = (initial IMSI of 14/15 digits with 2- or 3-digit MNC, population N in {1,2,3,10,100,1000,10000} that the MSIN can accommodate, K, OP, OPc); " +
+		Rule: "case = (initial IMSI of 14/15 digits with 2- or 3-digit MNC, population N in {1,2,3,10,100,1000,10000} that the MSIN can accommodate, K, OP, OPc); two cases in five place the initial MSIN so that the population walks across a 10^j carry, j cycling through 1..MSIN length-1 by case index; " +
 			"every case creates N UEs with stgutg.CreateUE and checks pairwise distinct SUPI / RAN-UE-NGAP-ID, PLMN prefix and digit count, credentials; " +
 			"one case in eight instead sweeps all 16 (NEA,NIA) pairs through NewRanUeContext+GetUESecurityCapability. distinct = hash(IMSI,N); non-trivial = N>=2 or capability sweep",
 		Assumptions: []string{"SUPI text form is imsi-<digits>", "population is bounded by 10 000 as the property says"},
 		N: func(t string) int {
 			if t == "thorough" {
-				return 6000
+				return 30000
 			}
-			return 400
+			return 2400
 		},
 		Batch: 50,
 		Run:   runC16,
@@ -64,14 +64,25 @@ func runC16(c *fw.Case) (o fw.Outcome) {
 		msin = limit - int64(n) // ends exactly at 99..9
 	case 1:
 		msin = 0
-	case 2: // close to a 10^k carry in the tail
+	case 2, 3: // the population walks across a 10^j carry inside the MSIN, for every j in turn (index-driven)
+		j := 1 + (c.Idx/5)%(msinLen-1)
 		k := int64(1)
-		for i := 0; i < 1+r.Intn(msinLen-1); i++ {
+		for i := 0; i < j; i++ {
 			k *= 10
 		}
-		msin = (r.Int63n(limit/k)+1)*k - 1 - int64(r.Intn(3))
+		back := int64(0)
+		if n > 1 {
+			back = int64(r.Intn(n - 1)) // 0 .. n-2: the carry happens inside the population
+		}
+		msin = (r.Int63n(limit/k)+1)*k - 1 - back
 		if msin < 0 || msin+int64(n) > limit {
-			msin = r.Int63n(limit - int64(n) + 1)
+			msin = k - 1 - back // the lowest carry of that order
+			if msin < 0 || msin+int64(n) > limit {
+				msin = r.Int63n(limit - int64(n) + 1)
+			}
+		}
+		if n > 1 {
+			o.Tag(fmt.Sprintf("carry-10^%d", j))
 		}
 	default:
 		msin = r.Int63n(limit - int64(n) + 1)
